@@ -690,6 +690,145 @@ pub fn check_denied(c: &DenyCase) -> Verdict {
     Verdict::pass_c(if deny != 0 { Some(fp_json(c)) } else { None }, classes)
 }
 
+// ---------------------------------------------------------------------------
+// absent auxiliary-vector values (the kernel's file, as the dumper sees it, lacks entries)
+// ---------------------------------------------------------------------------
+
+#[derive(Debug, Clone, PartialEq, Eq, Hash, Serialize, Deserialize)]
+pub struct AbsentCase {
+    /// bit 0 AT_PHNUM, bit 1 AT_PHDR, bit 2 AT_SYSINFO_EHDR, bit 3 AT_ENTRY absent from the file
+    pub missing: u8,
+    /// the file is empty / holds only the terminator
+    pub empty: u8,
+    pub parked: u8,
+    /// caller-supplied values for these keys (same bits): what the caller supplies need not be in the file
+    pub supplied: u8,
+}
+
+pub fn check_absent(c: &AbsentCase) -> Verdict {
+    init_scratch();
+    let scratch = Target::new_scratch();
+    let mut b = Builder::new();
+    for i in 0..(c.parked % 3) {
+        let st = b.add_stack(2, true, 61 + i as u64);
+        b.add_thread(K_PARKED, Some(format!("abs{i}").into_bytes()), st.base + 0x900, 350 + i as u64);
+    }
+    let file = scratch.join("auxv-content");
+    let t = match Target::spawn(&b.spec, scratch) {
+        Ok(t) => t,
+        Err(e) => return Verdict::Inconclusive(format!("target setup: {}", e.split(':').next().unwrap_or(""))),
+    };
+    if !t.wait_settled(&b.spec) {
+        return Verdict::Inconclusive("target did not settle".into());
+    }
+    let pid = t.pid;
+    let truth = true_auxv(pid); // phnum, phdr, gate, entry
+    let real = std::fs::read(format!("/proc/{pid}/auxv")).unwrap_or_default();
+    let keys = [5u64, 3, 33, 9];
+    let missing = if c.empty % 4 == 1 || c.empty % 4 == 2 { 15 } else { c.missing & 15 };
+    let mut bytes: Vec<u8> = vec![];
+    match c.empty % 4 {
+        1 => {}
+        2 => bytes.extend_from_slice(&[0u8; 16]),
+        _ => {
+            for pair in real.chunks_exact(16) {
+                let k = u64::from_le_bytes(pair[..8].try_into().unwrap());
+                if keys.iter().enumerate().any(|(i, kk)| *kk == k && missing & (1 << i) != 0) {
+                    continue;
+                }
+                bytes.extend_from_slice(pair);
+            }
+        }
+    }
+    if std::fs::write(&file, &bytes).is_err() {
+        return Verdict::Inconclusive("cannot write the auxv content".into());
+    }
+    let supplied = c.supplied & 15;
+    let direct: Option<[u64; 4]> = if supplied == 0 { None } else { Some([0, 1, 2, 3].map(|i| if supplied & (1 << i) != 0 { truth[i] } else { 0 })) };
+    // a value is known to the writer if the caller supplied it or the file holds it
+    let known = |i: usize| supplied & (1 << i) != 0 || missing & (1 << i) == 0;
+    let opts = DumpOpts { blamed: pid, direct_auxv: direct, ..Default::default() };
+    let ref_opts = DumpOpts { blamed: pid, ..Default::default() };
+    macro_rules! bad {
+        ($sig:expr, $($arg:tt)*) => { return Verdict::viol(format!("C11:absent-auxv:{}", $sig), format!($($arg)*)) };
+    }
+    let mut w0 = make_writer(pid, &ref_opts);
+    let mut d0 = Dest::new(vec![], 0);
+    let ref_img = match run_dump(&mut w0, &mut d0) {
+        DumpOutcome::Ok(v) => v,
+        DumpOutcome::Err(e) => bad!("dump-failed", "reference dump returned {e}"),
+        DumpOutcome::Panic(l, m) => return panic_verdict(&l, &m),
+    };
+    if !t.wait_settled(&b.spec) {
+        return Verdict::Inconclusive("target did not settle between the two dumps".into());
+    }
+    let mut w = make_writer(pid, &opts);
+    let mut dest = Dest::new(vec![], 0);
+    let (out, opened) = crate::vcore::faultfs::with_redirected_path(b"/auxv", &file, || run_dump(&mut w, &mut dest));
+    let img = match out {
+        DumpOutcome::Ok(v) => v,
+        DumpOutcome::Err(e) => bad!(format!("dump-failed:{}", e.split('(').take(2).collect::<Vec<_>>().join("(")), "auxv file without the values {missing:#x} (caller supplies {supplied:#x}): the dump returned {e}"),
+        DumpOutcome::Panic(l, m) => return panic_verdict(&l, &m),
+    };
+    let (ref_d, d) = (md::decode(&ref_img), md::decode(&img));
+    if let Some(p) = md::structural_problems(&d, Some(18)).first() {
+        bad!(format!("structure:{}", p.sig), "{}", p.detail);
+    }
+    let (ref_se, se) = match (soft_errors_of(&ref_img, &ref_d), soft_errors_of(&img, &d)) {
+        (Ok(a), Ok(b)) => (a, b),
+        (Err(e), _) | (_, Err(e)) => bad!("soft-error-stream-malformed", "{e}"),
+    };
+    let (mut want, mut got) = (BTreeMap::new(), BTreeMap::new());
+    flatten(&ref_se, "", &mut want);
+    flatten(&se, "", &mut got);
+    got.remove("InitErrors/StopProcessFailed:Timeout");
+    want.remove("InitErrors/StopProcessFailed:Timeout");
+    // the linker's list is reached through AT_PHDR / AT_PHNUM: without them that step fails - and says so
+    let dso_fails = !known(0) || !known(1);
+    if dso_fails {
+        *want.entry("WriteDSODebugStreamFailed".to_string()).or_default() += 1;
+    }
+    // a file that ends without the terminating pair is malformed, and the step that reads it (only when
+    // the caller has not supplied everything) says so
+    if c.empty % 4 == 1 && supplied != 15 {
+        *want.entry("InitErrors/FillMissingAuxvInfoErrors/InvalidFormat".to_string()).or_default() += 1;
+    }
+    if got != want {
+        let sig = if want.iter().any(|(k, n)| got.get(k).copied().unwrap_or(0) < *n) { "failure-not-reported" } else { "spurious-soft-error" };
+        bad!(sig, "auxv file without the values {missing:#x} (caller supplies {supplied:#x}; file opened {opened} times): reported {got:?}, expected {want:?}");
+    }
+    if dso_fails != d.dso.is_none() {
+        bad!("dso-stream", "program headers known: {}; linker stream present: {}", !dso_fails, d.dso.is_some());
+    }
+    {
+        use crate::vcore::normal::*;
+        let (mut na, mut nb) = (normal_form(&ref_img, &ref_d), normal_form(&img, &d));
+        for n in [&mut na, &mut nb] {
+            n.soft_errors.clear();
+            n.raw.remove(&md::ST_LINUX_AUXV);
+            n.unused_entries = 0;
+            if dso_fails {
+                n.dso = None;
+            }
+            if !known(2) || !known(3) {
+                // without the gate address the vDSO keeps its kernel name, without the entry address no
+                // module is moved to the front: the module list is judged as a set of extents only
+                let mut m: Vec<_> = n.modules.iter().map(|x| (x.0, x.1, None, x.3.clone(), x.4)).collect();
+                m.sort();
+                n.modules = m;
+            }
+        }
+        if let Some((what, detail)) = first_difference(&na, &nb) {
+            bad!("stream-differs", "auxv file without the values {missing:#x} (caller supplies {supplied:#x}): the dump differs from the ordinary one in {what}: {detail}");
+        }
+    }
+    let mut classes = vec![format!("absent:{:04b}", missing & !supplied)];
+    if dso_fails {
+        classes.push("linker-stream-step-fails".into());
+    }
+    Verdict::pass_c(if missing != 0 { Some(fp_json(c)) } else { None }, classes)
+}
+
 fn thread_strategy() -> impl Strategy<Value = (u8, NameG)> {
     (
         prop_oneof![4 => Just(K_PARKED), 2 => Just(K_SLEEPER), 1 => Just(K_NULLSP), 2 => Just(K_EXITER)],
@@ -731,7 +870,7 @@ fn enum_cases() -> impl Iterator<Item = Case> {
 
 pub fn run(ctx: &mut LaneCtx) {
     ctx.assume("expected-error model: Stop -> InitErrors/StopProcessFailed; FillMissingAuxvInfo -> InitErrors/FillMissingAuxvInfoErrors (only when the auxv info is not already complete); ThreadName -> one ReadThreadNameFailed per thread; SuspendThreads -> PtraceAttachError(1234); CpuInfoFileOpen -> WriteCpuInformationFailed; non-UTF-8 comm -> ReadThreadNameFailed; null-SP thread -> DetachSkippedThread(tid); vanished thread -> PtraceAttachError(tid) or WaitPidError(tid); unreadable linker data or a library name that is not UTF-8 -> WriteDSODebugStreamFailed; zombie leader -> StopProcessFailed(Timeout) + FillMissingAuxvInfoFailed + PtraceAttachError(pid) + WriteDSODebugStreamFailed; otherwise StopProcessFailed(Timeout) is environmental and tolerated only if the process was NOT in the stopped state when the stop step had finished (observed at the threads-enumerated hook); the main thread's name is the program's or one of six names with blanks, tabs and parentheses");
-    ctx.assume("threads can only exit between enumeration and attach when the process was not stopped, so exiter schedules are exercised with the StopProcess fail point on; a target whose kernel auxv lacks entries cannot be manufactured (PR_SET_MM_AUXV is not permitted here)");
+    ctx.assume("threads can only exit between enumeration and attach when the process was not stopped, so exiter schedules are exercised with the StopProcess fail point on; a target whose kernel auxv lacks entries cannot be manufactured (PR_SET_MM_AUXV is not permitted here): the sub-check absent-auxv-values redirects the dumper's open of /proc/<pid>/auxv to a file with the entries removed instead");
     ctx.run_enum(
         "failspot-subsets",
         "exhaustive: all 32 subsets of the five fail points x 7 fixed target shapes (incl. non-UTF-8 names, null-SP thread, exiting threads, bad direct auxv, a zombie thread-group leader); non-trivial = a subset other than the two the suite tests ({Stop}, all five) or any natural failure",
@@ -753,6 +892,12 @@ pub fn run(ctx: &mut LaneCtx) {
     );
     let _ = pick;
     run_denied(ctx);
+    ctx.run_enum(
+        "absent-auxv-values",
+        "exhaustive: the /proc/<pid>/auxv the dumper sees (redirected open) lacks any subset of AT_PHNUM / AT_PHDR / AT_SYSINFO_EHDR / AT_ENTRY (16), or is empty, or holds only the terminator, x the caller supplying any subset of the four true values (16) = 288 cases on targets with 0..2 extra threads; oracle = the dump succeeds; WriteDSODebugStreamFailed is listed exactly when AT_PHDR or AT_PHNUM is known neither from the caller nor from the file, and then the linker stream is absent; an empty file (no terminator) is additionally reported as malformed when it is read; nothing else is reported; every other stream equals the ordinary dump of the same target (module list as a set of extents when the gate or entry address is unknown); non-trivial = something absent",
+        (0u8..18).flat_map(|m| (0u8..16).map(move |sup| AbsentCase { missing: if m < 16 { m } else { 0 }, empty: if m < 16 { 0 } else { m - 15 }, parked: m % 3, supplied: sup })),
+        check_absent,
+    );
 }
 
 pub fn run_denied(ctx: &mut LaneCtx) {
@@ -774,6 +919,7 @@ pub fn replay(sub: &str, case: &Value) -> Verdict {
     match sub {
         "failspot-subsets" | "generated" => replay_case::<Case>(case, check),
         "unopenable-files" => replay_case::<DenyCase>(case, check_denied),
+        "absent-auxv-values" => replay_case::<AbsentCase>(case, check_absent),
         _ => Verdict::Inconclusive(format!("unknown sub {sub}")),
     }
 }
